@@ -7,10 +7,13 @@ package netx
 
 import (
 	"errors"
+	"fmt"
 	"net"
 	"net/http"
 	"net/http/httptest"
+	"os"
 	"strings"
+	"sync/atomic"
 	"syscall"
 	"time"
 )
@@ -43,9 +46,60 @@ func transient(err error) bool {
 
 var waits = []time.Duration{200 * time.Millisecond, time.Second, 3 * time.Second, 8 * time.Second, 15 * time.Second, 30 * time.Second, 30 * time.Second}
 
+// TimeWait is the number of sockets in TIME_WAIT (from /proc/net/sockstat; -1 if unknown). The loopback
+// port range of the sandbox holds 28232 ports.
+func TimeWait() int {
+	b, err := os.ReadFile("/proc/net/sockstat")
+	if err != nil {
+		return -1
+	}
+	if i := strings.Index(string(b), " tw "); i >= 0 {
+		var n int
+		fmt.Sscanf(string(b)[i+4:], "%d", &n)
+		return n
+	}
+	return -1
+}
+
+var portRange = func() int {
+	b, err := os.ReadFile("/proc/sys/net/ipv4/ip_local_port_range")
+	var lo, hi int
+	if err != nil {
+		return 28232
+	}
+	if n, _ := fmt.Sscanf(string(b), "%d %d", &lo, &hi); n != 2 || hi <= lo {
+		return 28232
+	}
+	return hi - lo + 1
+}()
+
+// Pressure reports whether most of the port range (70 %) is parked in TIME_WAIT.
+func Pressure() bool { return TimeWait() > portRange*7/10 }
+
+var waited atomic.Int64
+
+// Waited is the total time (ns) this process has spent waiting for the sandbox to recover; a per-case
+// watchdog uses it to tell a stalled case from a case that was made to wait.
+func Waited() int64 { return waited.Load() }
+
+func nap(d time.Duration) {
+	time.Sleep(d)
+	waited.Add(int64(d))
+}
+
+// Calm waits (at most 75 s, TIME_WAIT lasts 60 s) until half of the port range is free again.
+func Calm() {
+	for i := 0; i < 150 && TimeWait() > portRange/2; i++ {
+		nap(500 * time.Millisecond)
+	}
+}
+
 // Listen opens a loopback listener on a free port, waiting (up to about 90 s) for one when the
 // machine has none left.
 func Listen() net.Listener {
+	if Pressure() {
+		Calm()
+	}
 	var err error
 	for i := 0; ; i++ {
 		var ln net.Listener
@@ -56,7 +110,7 @@ func Listen() net.Listener {
 		if !transient(err) || i >= len(waits) {
 			break
 		}
-		time.Sleep(waits[i])
+		nap(waits[i])
 	}
 	panic(err)
 }
@@ -73,7 +127,7 @@ func Dial(addr string, timeout time.Duration) (net.Conn, error) {
 		if !transient(err) || i >= 4 {
 			return nil, err
 		}
-		time.Sleep(waits[i])
+		nap(waits[i])
 	}
 }
 
